@@ -93,6 +93,7 @@ pub fn class_name(c: SrcClass) -> &'static str {
         SrcClass::ZeroRuns => "zeroruns",
         SrcClass::BlockRepetitive => "blockrep",
         SrcClass::Zeros => "zeros",
+        SrcClass::LevelShift => "levelshift",
     }
 }
 pub fn class_from(s: &str) -> SrcClass {
@@ -102,6 +103,7 @@ pub fn class_from(s: &str) -> SrcClass {
         "lowentropy" => SrcClass::LowEntropy,
         "zeroruns" => SrcClass::ZeroRuns,
         "blockrep" => SrcClass::BlockRepetitive,
+        "levelshift" => SrcClass::LevelShift,
         _ => SrcClass::Zeros,
     }
 }
@@ -373,6 +375,10 @@ pub fn run_cli(dir: &Path, name: &str, source: &[u8], spec: &CompressSpec, inj: 
         run.delays.push(format!("2,{},{},r", inj.seed ^ 0x22, inj.input_read_delay_us));
     }
     run.workers = inj.workers;
+    if spec.buffered.is_none() && inj.seed % 5 == 2 {
+        // default --buffered-chunks on a single-CPU machine
+        run.one_cpu = Some(inj.seed as usize >> 4);
+    }
     let o = proc::run(&run);
     let archive = std::fs::read(&out_path).ok();
     let (fp, overlap) = fingerprint(&o.hooks);
